@@ -17,9 +17,9 @@ def register(reg):
     U = 'tatsu/util/configs.py'
     # the two layering steps on the fixed-field view of a configuration (their functional specification over the
     # name -> value view is proved in c_configs.py); here only: results are functions of the arguments, nothing is modified
-    contract(reg, f'{U}:Config.override_config', ['C09', 'C10'], {'self': 'ConfigR', 'other': 'any'}, ret='ConfigR', verify=False, pure=True,
+    contract(reg, f'{U}:Config.override_config#fixedfields', ['C09', 'C10'], {'self': 'ConfigR', 'other': 'any'}, ret='ConfigR', verify=False, pure=True,
              modifies=[], note='ConfigR view: a new configuration, function of (self, other); neither argument is modified')
-    contract(reg, 'tatsu/config.py:ParserConfig.override', ['C09', 'C10'], {'self': 'ConfigR', 'hard': 'bool', 'settings': 'any'}, ret='ConfigR', verify=False, pure=True,
+    contract(reg, 'tatsu/config.py:ParserConfig.override#fixedfields', ['C09', 'C10'], {'self': 'ConfigR', 'hard': 'bool', 'settings': 'any'}, ret='ConfigR', verify=False, pure=True,
              modifies=[], defaults={'hard': False}, kwparam='settings', note='ConfigR view: a new configuration, function of (self, hard, settings)')
     K = 'tatsu/contexts/core.py'
     contract(reg, f'{K}:ParserCore.update_tracer', ['C09', 'C10'], {'self': 'Ctx'}, ret='any', verify=False, wf=False,
